@@ -4,6 +4,7 @@
   the after-pass invariants of Props/C10.lean.
 -/
 import TmVerif.Props.C10
+import TmVerif.Master.InitLemmas
 
 namespace TmVerif.Master
 open TmVerif.Sched
@@ -173,6 +174,50 @@ theorem C09_cycle_partial (m m' : MState) (order : List Nat) (qs : List (List (N
   exact ⟨C09_cycle_where _ _ _ _ _ _ _ _ hpre.1 hw,
          C09_cycle_what_partial _ _ _ _ _ _ _ _ hpre.1 hpre.2 hid hw⟩
 
+/-- What `init_schedule` needs of the cell after its start-up cycle; all three are scheduler
+    invariants (engine `sched`: `C01_views`; every placed instance is on a server of the tree after
+    `_fix_invalid_placements`). -/
+structure CellViews (c : Cell) : Prop where
+  leavesNodup : c.tree.leaves.Nodup
+  leavesLoaded : ∀ sid ∈ c.tree.leaves, (c.srv? sid).isSome
+  views : ∀ sid s, c.srv? sid = some s → ∀ aid, aid ∈ s.apps ↔ placedOn c aid sid
+  placedInTree : ∀ aid sid, placedOn c aid sid → sid ∈ c.tree.leaves
+
+/-- **C09 at start-up, existence (partial).**  After `Master.init_schedule` has reconciled
+    `/placement/<srv>` for every member of the cell — whatever the store held before: the records of
+    a crashed predecessor, stale instances, missing records — a record exists under `srv` for `app`
+    iff the model places `app` on `srv`.
+    PARTIAL: `hloaded` excludes records under a server that is not part of the loaded cell; the
+    code never visits those (start-up face of finding F6, corpus case C10-F6-…, proposed fix F6b).
+    Content (`AgreeWhat`) does NOT hold after `init_schedule`: it reconciles by name only
+    (findings F10 start-up path and F13, witness `C09_F13_witness`). -/
+theorem C09_init_where_partial (c' : Cell) (st : Store) (now : Int) (hc : CellViews c')
+    (hloaded : ∀ r ∈ st.recs, r.srv ∈ c'.tree.leaves) :
+    AgreeWhere c' (st.applyAll now (initWrites c' st)) := by
+  intro srv app
+  change HasKey _ srv app ↔ _
+  unfold initWrites
+  rw [applyAll_append]
+  have hblob : ∀ st2 : Store, HasKey (st2.applyAll now [Write.saveBlob]) srv app ↔ HasKey st2 srv app := by
+    intro st2; rw [applyAll_cons, applyAll_nil, hasKey_apply]; rfl
+  rw [hblob]
+  have happs : ∀ sid s, c'.srv? sid = some s → ∀ a ∈ s.apps, (c'.app? a).isSome := by
+    intro sid s hs a ha
+    obtain ⟨x, hx, _⟩ := (hc.views sid s hs a).mp ha
+    simp [hx]
+  rw [initLoop_keys now c' st happs c'.tree.leaves st hc.leavesNodup hc.leavesLoaded (fun _ _ _ => Iff.rfl)]
+  by_cases hin : srv ∈ c'.tree.leaves
+  · simp only [hin, ↓reduceIte]
+    constructor
+    · rintro ⟨s, hs, ha⟩; exact (hc.views srv s hs app).mp ha
+    · intro hp
+      obtain ⟨s, hs⟩ := Option.isSome_iff_exists.mp (hc.leavesLoaded srv hin)
+      exact ⟨s, hs, (hc.views srv s hs app).mpr hp⟩
+  · simp only [hin, ↓reduceIte]
+    constructor
+    · rintro ⟨r, hr, rfl, rfl⟩; exact absurd (hloaded r hr) hin
+    · intro hp; exact absurd (hc.placedInTree app srv hp) hin
+
 /-! ### non-vacuity and finding witnesses -/
 
 def identityStableB (c c' : Cell) : Bool :=
@@ -246,6 +291,82 @@ theorem C09_F10_witness :
           (getOk (rescheduleW { (getOk (restorePlacement Ex.at60 Ex.bouncedStore 1 false)).1 with now := 62 } [10] Ex.q10 [])).2,
           eq_ok_triple (by decide +kernel), by decide +kernel, by decide +kernel,
           eq_ok_pair (by decide +kernel), agreeWhere_of_B (by decide +kernel) (by decide +kernel), ?_⟩
+  rw [← agreeWhatB_iff]
+  decide +kernel
+
+namespace Ex
+/-- the cell after the start-up cycle of `down2` (instance moved from the down server 2 to server 1) -/
+def started : Cell := getOk (schedule down2 q10 [])
+/-- F13: the cell after `restore_placement` re-placed the instance through the put branch at t=60 -/
+def c60 : Cell := (getOk (restorePlacement at60 bouncedStore 1 true)).1
+def startSt : MState := ⟨{ c60 with now := 62 }, bouncedStore⟩
+end Ex
+
+/-- Non-vacuity of `C09_init_where_partial`: the concrete start-up state (`Ex.down2`: instance
+    restored on the down server 2) satisfies the hypotheses after its start-up cycle, and the
+    reconciliation is non-trivial (one put, one delete). -/
+example : isOkB (schedule Ex.down2 Ex.q10 []) = true ∧ CellViews Ex.started ∧
+    (∀ r ∈ (Ex.storeOn 2).recs, r.srv ∈ Ex.started.tree.leaves) ∧
+    initWrites Ex.started (Ex.storeOn 2) =
+      [.mkNode 1, .putRec 1 10 none none (some 105), .mkNode 2, .delRec 2 10, .saveBlob] := by
+  refine ⟨by decide +kernel, ?_, by decide +kernel, by decide +kernel⟩
+  have hids : Ex.started.apps.map (·.id) = [10] := by decide +kernel
+  have h10 : (Ex.started.app? 10).map (·.server) = some (some 1) := by decide +kernel
+  have happ : ∀ x, x ≠ 10 → Ex.started.app? x = none := by
+    intro x hx
+    cases hf : Ex.started.app? x with
+    | none => rfl
+    | some a =>
+      have := app?_some_mem_ids hf
+      rw [hids] at this
+      simp at this; exact absurd this hx
+  have hplaced : ∀ aid sid, placedOn Ex.started aid sid ↔ aid = 10 ∧ sid = 1 := by
+    intro aid sid
+    unfold placedOn
+    by_cases hx : aid = 10
+    · subst hx
+      cases h : Ex.started.app? 10 with
+      | none => rw [h] at h10; cases h10
+      | some a =>
+        rw [h] at h10
+        simp only [Option.map_some, Option.some.injEq] at h10
+        simp [h10, eq_comm]
+    · simp [happ aid hx, hx]
+  refine ⟨by decide +kernel, by decide +kernel, ?_, ?_⟩
+  · intro sid s hs aid
+    have hm : sid ∈ Ex.started.srvs.map (·.id) := srv?_some_mem_ids hs
+    have hsids : Ex.started.srvs.map (·.id) = [1, 2] := by decide +kernel
+    rw [hsids] at hm
+    rw [hplaced]
+    simp only [List.mem_cons, List.not_mem_nil, or_false] at hm
+    rcases hm with rfl | rfl
+    · have hs1 : (Ex.started.srv? 1).map (·.apps) = some [10] := by decide +kernel
+      rw [hs] at hs1
+      simp only [Option.map_some, Option.some.injEq] at hs1
+      simp [hs1]
+    · have hs2 : (Ex.started.srv? 2).map (·.apps) = some [] := by decide +kernel
+      rw [hs] at hs2
+      simp only [Option.map_some, Option.some.injEq] at hs2
+      simp [hs2]
+  · intro aid sid hp
+    have hl : Ex.started.tree.leaves = [1, 2] := by decide +kernel
+    rw [hl, ((hplaced aid sid).mp hp).2]
+    simp
+
+/-- **Witness of finding F13 / F10 (start-up path).**  At start-up `restore_placement` re-placed the
+    instance through its put branch (new expiry 160, the record says 100) without writing anything;
+    `init_schedule` then finds the name sets of server 1 equal and writes nothing for the instance:
+    existence agrees, content does not. -/
+theorem C09_F13_witness :
+    isOkB (restorePlacement Ex.at60 Ex.bouncedStore 1 true) = true ∧
+    (getOk (restorePlacement Ex.at60 Ex.bouncedStore 1 true)).2.1 = [] ∧
+    ∃ m' ws, initSchedule Ex.startSt Ex.q10 [] = .ok (m', ws) ∧
+      ws = [.mkNode 1, .mkNode 2, .saveBlob] ∧
+      AgreeWhere m'.cell m'.store ∧ ¬ AgreeWhat m'.cell m'.store := by
+  refine ⟨by decide +kernel, by decide +kernel,
+          (getOk (initSchedule Ex.startSt Ex.q10 [])).1, (getOk (initSchedule Ex.startSt Ex.q10 [])).2,
+          eq_ok_pair (by decide +kernel), by decide +kernel,
+          agreeWhere_of_B (by decide +kernel) (by decide +kernel), ?_⟩
   rw [← agreeWhatB_iff]
   decide +kernel
 
